@@ -490,3 +490,118 @@ Example status_dir_fresh_ex :
   | _ => False
   end.
 Proof. vm_compute. reflexivity. Qed.
+
+(* ------------------------------------------------------------------------------------ *)
+(* Iteration order.  dir_objs / dir_exists are Python dicts / sets: the real loop visits the
+   directories in an order the model does not know.  For flat listings the order is
+   irrelevant: the model's choice (request order) is as good as any other. *)
+Lemma foldl_files_lookup (l : list oid) : ∀ (m0 : index) o,
+  foldl (λ m f, <[f := false]> m) m0 l !! o = if decide (o ∈ l) then Some false else m0 !! o.
+Proof.
+  induction l as [|a l IH]; intros m0 o; cbn [foldl].
+  - rewrite decide_False; [done|]. intros H; inversion H.
+  - rewrite IH. destruct (decide (o ∈ l)) as [Hl|Hl].
+    + rewrite decide_True; [done|by right].
+    + destruct (decide (o = a)) as [->|Hne].
+      * rewrite lookup_insert, decide_True; [done|by left].
+      * rewrite lookup_insert_ne by done. rewrite decide_False; [done|].
+        intros H. apply elem_of_cons in H as [?|?]; auto.
+Qed.
+
+Lemma ix_update_lookup ix D l o :
+  ix_update ix D l !! o =
+  if decide (o ∈ l) then Some false else if decide (o = D) then Some true else ix !! o.
+Proof.
+  unfold ix_update. rewrite foldl_files_lookup. destruct (decide (o ∈ l)); [done|].
+  destruct (decide (o = D)) as [->|Hne]; [by rewrite lookup_insert|by rewrite lookup_insert_ne].
+Qed.
+
+Lemma ix_update_lookup_other ix D l D' : D' ∉ l → D' ≠ D → ix_update ix D l !! D' = ix !! D'.
+Proof. intros H1 H2. rewrite ix_update_lookup, decide_False, decide_False; done. Qed.
+
+Lemma ix_update_comm ix D1 l1 D2 l2 :
+  D1 ∉ l2 → D2 ∉ l1 → D1 ≠ D2 →
+  ix_update (ix_update ix D1 l1) D2 l2 = ix_update (ix_update ix D2 l2) D1 l1.
+Proof.
+  intros H1 H2 Hne. apply map_eq. intros o. rewrite !ix_update_lookup.
+  destruct (decide (o ∈ l2)), (decide (o ∈ l1)), (decide (o = D2)), (decide (o = D1)); subst; done.
+Qed.
+
+Lemma index_dir_comm load acc D1 D2 :
+  wf_loader load → is_dir_oid D1 = true → is_dir_oid D2 = true →
+  index_dir load (index_dir load acc D1) D2 = index_dir load (index_dir load acc D2) D1.
+Proof.
+  intros Hw Hd1 Hd2. destruct (decide (D1 = D2)) as [->|Hne]; [done|].
+  destruct acc as [ix y]. unfold index_dir.
+  destruct (load D1) as [l1|] eqn:E1; destruct (load D2) as [l2|] eqn:E2; cbn [fst snd];
+    rewrite ?E1, ?E2; cbn [fst snd]; try done.
+  assert (H12 : D1 ∉ l2). { intros H. rewrite (Hw _ _ E2 _ H) in Hd1. discriminate. }
+  assert (H21 : D2 ∉ l1). { intros H. rewrite (Hw _ _ E1 _ H) in Hd2. discriminate. }
+  f_equal; [|set_solver].
+  destruct (decide (is_Some (ix !! D1))) as [S1|S1], (decide (is_Some (ix !! D2))) as [S2|S2].
+  - by rewrite decide_True.
+  - rewrite decide_True; [done|]. by rewrite ix_update_lookup_other by auto.
+  - rewrite decide_True by (by rewrite ix_update_lookup_other by auto). by rewrite decide_False.
+  - rewrite decide_False by (by rewrite ix_update_lookup_other by auto).
+    rewrite decide_False by (by rewrite ix_update_lookup_other by auto).
+    by apply ix_update_comm.
+Qed.
+
+Lemma foldl_perm {A B} (f : A → B → A) (P : B → Prop) :
+  (∀ a x y, P x → P y → f (f a x) y = f (f a y) x) →
+  ∀ l1 l2, l1 ≡ₚ l2 → Forall P l1 → ∀ a, foldl f a l1 = foldl f a l2.
+Proof.
+  intros Hc l1 l2 Hp. induction Hp as [|x l1 l2 _ IH|x y l|l1 l2 l3 H12 IH1 _ IH2]; intros HP a; cbn [foldl].
+  - done.
+  - inversion HP; subst. by apply IH.
+  - inversion HP as [|? ? Hy HP']; subst. inversion HP' as [|? ? Hx _]; subst. by rewrite Hc.
+  - rewrite IH1 by done. apply IH2. by rewrite <- H12.
+Qed.
+
+(* the lemma the model file and the harness refer to *)
+Lemma indexed_loop_perm load ds1 ds2 acc :
+  wf_loader load → (∀ D, D ∈ ds1 → is_dir_oid D = true) → ds1 ≡ₚ ds2 →
+  foldl (index_dir load) acc ds1 = foldl (index_dir load) acc ds2.
+Proof.
+  intros Hw Hd Hp. apply (foldl_perm _ (λ D, is_dir_oid D = true)); [|done|by apply Forall_forall].
+  intros a x y Hx Hy. by apply index_dir_comm.
+Qed.
+
+Lemma collect_perm load sh q1 q2 : q1 ≡ₚ q2 → collect load sh q1 = collect load sh q2.
+Proof.
+  intros Hp.
+  assert (HQ : ∀ o, Queried load sh q1 o ↔ Queried load sh q2 o).
+  { intros o. unfold Queried. setoid_rewrite Hp. done. }
+  destruct (collect load sh q1) as [i1|] eqn:E1, (collect load sh q2) as [i2|] eqn:E2.
+  - f_equal. apply set_eq. intros o.
+    by rewrite (collect_spec _ _ _ _ E1), (collect_spec _ _ _ _ E2).
+  - exfalso. apply collect_none in E2 as (Hs & D & HD & ?). rewrite <- Hp in HD.
+    assert (collect load sh q1 = None) by (apply collect_none; eauto). congruence.
+  - exfalso. apply collect_none in E1 as (Hs & D & HD & ?). rewrite Hp in HD.
+    assert (collect load sh q2 = None) by (apply collect_none; eauto). congruence.
+  - done.
+Qed.
+
+(* status() through an index does not depend on the order of the request, i.e. on the order
+   in which the real loop happens to visit the directories *)
+Lemma status_ix_perm st load ix q1 q2 sh :
+  wf_loader load → q1 ≡ₚ q2 → status_ix st load ix q1 sh = status_ix st load ix q2 sh.
+Proof.
+  intros Hw Hp. unfold status_ix. rewrite (collect_perm _ _ _ _ Hp).
+  destruct (collect load sh q2) as [ids|]; [|done].
+  destruct (decide (ids = ∅)); [done|].
+  assert (Hr : req_dirs q1 ≡ₚ req_dirs q2) by (unfold req_dirs; by rewrite Hp).
+  assert (Hi : indexed_dir_hashes st load ix (req_dirs q1) = indexed_dir_hashes st load ix (req_dirs q2)).
+  { rewrite !indexed_dir_hashes_unfold.
+    assert (Hset : (list_to_set (req_dirs q1) : gset oid) = list_to_set (req_dirs q2)).
+    { apply set_eq. intros o. rewrite !elem_of_list_to_set. by rewrite Hr. }
+    assert (Hdex : dir_exists st (revalidate st ix).2 (req_dirs q1) = dir_exists st (revalidate st ix).2 (req_dirs q2)).
+    { unfold dir_exists. by rewrite Hset. }
+    rewrite Hdex. apply indexed_loop_perm; [done| |by rewrite Hr].
+    intros D HD. apply elem_of_list_filter in HD as [_ HD]. by apply req_dirs_spec in HD as [_ ?]. }
+  destruct (req_dirs q1) as [|a1 r1] eqn:E1, (req_dirs q2) as [|a2 r2] eqn:E2.
+  - done.
+  - apply Permutation_nil_l in Hr. discriminate.
+  - apply Permutation_nil_r in Hr. discriminate.
+  - by rewrite Hi.
+Qed.
